@@ -13,6 +13,7 @@ def check(ctx, prog):
     propagators.rule_status_vocab(ctx, prog)
     model.rule_constants(ctx, prog, want=("status",))
     propagators.rule_enforce_entail(ctx, prog)
+    propagators.rule_mirror_entail(ctx, prog)
     engine.rule_wakeup(ctx, prog)
     engine.rule_writeback(ctx, prog, want=("R-FLAGS-WRITERS",))
     search.rule_solve_one(ctx, prog, want=("R-HANDOVER",))
